@@ -38,6 +38,9 @@ structure Ops (σ : Type) where
   concat : List σ → σ
   /-- `self.0.starts_with('#')` in `Comment::write` (css/comment.rs). -/
   isHash : σ → Bool
+  /-- the text starts with `# sourceMappingURL=` or `# sourceURL=`: the only comments
+  `Comment::write` may print nothing for (code since 01d06ad, and the specification). -/
+  isSourceMap : σ → Bool
 
 /-- Deviations of the code from the properties C20/C21/C36 (all `false` = specification). -/
 structure Quirks where
